@@ -25,6 +25,8 @@ let rec stmt_of (x : Sx.t) : stmt =
   | "combo", p :: hs :: uses -> SCombo (str p, hs_of hs, List.map (fun u -> match Sx.tag u, Sx.args u with "use", [m; h] -> CUse (atom_str m, hs_of h) | "autohead", [b] -> CAuto (bool_of b) | _ -> failwith "use") uses)
   | "autohead", [b] -> SAutoHead (bool_of b)
   | "wrapper", [b] -> SWrapper (bool_of b)
+  | "cnew", [id; p; hs] -> SComboNew (nat_of_int (Sx.int_of id), str p, hs_of hs)
+  | "cuse", [id; m; hs] -> SComboUse (nat_of_int (Sx.int_of id), atom_str m, hs_of hs)
   | _ -> failwith ("stmt: " ^ Sx.show x)
 
 (* the restricted route syntax of C11 programs: "/" separated, a segment is "{name}" or a literal *)
@@ -90,4 +92,4 @@ let eval (input : Sx.t) (obs : Sx.t) : Sx.t list * bool * bool * string =
   let spec = (flat = Sx.args obs) in
   let nested = List.exists (has_nested_group 0) prog in
   let cls = (if nested then "nested-groups" else "flat-or-single") ^ (if exec wrap prog = None then ",refused" else "") in
-  (m, spec, nested || List.exists (function SCombo _ -> true | _ -> false) prog, cls)
+  (m, spec, nested || List.exists (function SCombo _ | SComboNew _ -> true | _ -> false) prog, cls)
